@@ -17,6 +17,9 @@ import SwV.Lemmas.C21
 import SwV.Lemmas.C20Batch
 import SwV.Lemmas.C20Links
 import SwV.Lemmas.C20LinksStep
+import SwV.Model.C20Http
+import SwV.Lemmas.C20Http
+import SwV.Gen.C20Http
 
 namespace SwV.Props.C20
 open SwV.Model.C18 SwV.Lemmas.C18 SwV.Lemmas.C20 SwV.Lemmas.C20Batch
@@ -500,5 +503,121 @@ theorem bridge_source_pins :
     SwV.Gen.C20.src_DeleteEntryMetaAndData = "d2c3c47d2d5354d7" ∧
     SwV.Gen.C20.src_doBatchDeleteFolderMetaAndData = "b5846477150726cb" := by
   decide
+
+/-! ## the save path of the HTTP write handlers (PUT, PUT ?op=append): failed saves
+
+`SwV.Model.C20Http.save` mirrors `saveMetaData` of weed/server/filer_server_handlers_write_autochunk.go on top of the
+namespace model: the request uploads its chunks (`newIds`, ids the master hands out: unused), an append merges them
+behind the chunks of the existing entry, the entry goes to Filer.CreateEntry, and when that fails the handler hands
+`fileChunks` to Filer.DeleteChunks. The correspondence check runs it against the real handlers (harness variant
+"http": in-process master/volume stand-ins, a store shim that can be down for one request). -/
+
+section HttpSave
+open SwV.Model.C20Http SwV.Lemmas.C20Http
+
+/-- the chunks some live name shows (directly or through its link record), as a list -/
+def refChunks (s : St) : List Nat := s.ents.flatMap fun x => ((find s x.1).map (·.chunks)).getD []
+
+theorem mem_refChunks_of_referenced {s : St} {c : Nat} (h : Referenced s c) : c ∈ refChunks s := by
+  rcases h with ⟨p, e, v, hm, hf, hc⟩
+  exact List.mem_flatMap.2 ⟨(p, e), hm, by simp [hf, hc]⟩
+
+/-- gc_safe for EVERY failed save — every store, every path, body length, chunk size, inline limit, plain upload or
+    append, the store down for the request or Filer.CreateEntry refusing for its own reasons (a parent that is a
+    file, a directory in the way): the store is exactly what it was, and nothing handed to the deletion queue is
+    shown by a live name (directly or through a hard link). `fresh` = the master hands out ids nobody references. -/
+theorem failed_save_gc_safe (s : St) (next : Nat) (r : Req)
+    (fresh : ∀ c ∈ newIds next r, ¬ Referenced s c)
+    (h : (save s next r).2.stage = .saveFailed) :
+    (save s next r).1 = s ∧ ∀ c ∈ (save s next r).2.q, ¬ Referenced (save s next r).1 c := by
+  have hf := save_failed h
+  refine ⟨hf.1, fun c hc => ?_⟩
+  rw [hf.1]
+  rw [hf.2.2.1] at hc
+  exact fresh c hc
+
+/-- gc_complete for every failed save: the request answers an error and EXACTLY the chunks it uploaded — all of
+    them, nothing else — are handed to the deletion queue -/
+theorem failed_save_gc_complete (s : St) (next : Nat) (r : Req) (h : (save s next r).2.stage = .saveFailed) :
+    (save s next r).2.q = newIds next r ∧ (save s next r).2.uploaded = (newIds next r).length ∧
+    (save s next r).2.res = .err :=
+  ⟨(save_failed h).2.2.1, (save_failed h).2.2.2, (save_failed h).2.1⟩
+
+/-- while the metadata store refuses writes no request below the root is saved and the store keeps its content
+    (with the two theorems above: whatever such a request uploaded is queued, and nothing else is) -/
+theorem store_down_never_saves (s : St) (next : Nat) (r : Req) (hd : r.down = true) (hp : r.path ≠ []) :
+    (save s next r).2.stage ≠ .saved ∧ (save s next r).1 = s :=
+  save_down hd hp
+
+/-- a request that reaches the store (store up, no inline content) IS the namespace operation
+    `create (targetPath …) (entryToSave …)`: same store afterwards, and when it is saved the same chunks are queued —
+    so gc_step / gc_history above speak about saved HTTP writes too -/
+theorem saved_is_createEntry (s : St) (next : Nat) (r : Req) (e : Entry) (he : entryToSave s next r = some e)
+    (hu : r.down = false) (hi : savesInline s r = false) :
+    (save s next r).1 = (step s (.create (targetPath s r.path) e false)).1 ∧
+    ((save s next r).2.stage = .saved → (save s next r).2.q = (step s (.create (targetPath s r.path) e false)).2.q) := by
+  rw [save_eq, he]
+  have hc : saveCall s r e = createEntry s (targetPath s r.path) e false := by simp [saveCall, hu]
+  simp only [hc, hi, step]
+  rcases createEntry s (targetPath s r.path) e false with ⟨s', res, q⟩
+  cases res <;> simp
+
+/-- /a/c written through PUT in three chunks -/
+def httpFile : St :=
+  (save {} 1000 { append := false, path := ["c", "a"], uid := 3, limit := 0, chunkSize := 8, len := 20, down := false }).1
+
+/-- non-vacuity: an append of 9 bytes onto the three-chunk file while the store is down is a failed save; its two
+    chunks 1003, 1004 are fresh, both are queued, the file keeps its three chunks; and a save that fails with the
+    store up (PUT below a file) -/
+example :
+    let r : Req := { append := true, path := ["c", "a"], uid := 3, limit := 0, chunkSize := 8, len := 9, down := true }
+    (save httpFile 1003 r).2.stage = .saveFailed ∧ (∀ c ∈ newIds 1003 r, ¬ Referenced httpFile c) ∧
+    (save httpFile 1003 r).2.q = [1003, 1004] ∧ (find httpFile ["c", "a"]).map (·.chunks) = some [1000, 1001, 1002] ∧
+    (save httpFile 1003 { r with append := false, down := false, path := ["x", "c", "a"] }).2.stage = .saveFailed := by
+  refine ⟨by decide, fun c hc hr => ?_, by decide, by decide, by decide⟩
+  have h1 := mem_refChunks_of_referenced hr
+  have h2 : refChunks httpFile = [1000, 1001, 1002] := by decide
+  have h3 : newIds 1003 { append := true, path := ["c", "a"], uid := 3, limit := 0, chunkSize := 8, len := 9, down := true } = [1003, 1004] := by decide
+  rw [h2] at h1
+  rw [h3] at hc
+  simp at h1 hc
+  omega
+
+example : (save httpFile 1003 { append := false, path := ["c", "a"], uid := 3, limit := 0, chunkSize := 8, len := 9, down := true }).2.stage ≠ .saved :=
+  (store_down_never_saves _ _ _ rfl (by decide)).1
+
+example : (save httpFile 1003 { append := true, path := ["c", "a"], uid := 3, limit := 0, chunkSize := 8, len := 9, down := false }).2.q = [] ∧
+    (find (save httpFile 1003 { append := true, path := ["c", "a"], uid := 3, limit := 0, chunkSize := 8, len := 9, down := false }).1 ["c", "a"]).map (·.chunks)
+      = some [1000, 1001, 1002, 1003, 1004] := by decide
+
+/-- NOT claimed (and outside the property text, which speaks about chunks that STOPPED being referenced): an append
+    onto a file with inline content is refused ("append to small file is not supported yet") AFTER its chunks were
+    uploaded; they are neither referenced nor handed to a deletion sink. Witness: -/
+theorem refused_append_uploads_unreferenced_witness :
+    let s := (save {} 1000 { append := false, path := ["a"], uid := 6, limit := 16, chunkSize := 8, len := 5, down := false }).1
+    let o := save s 1000 { append := true, path := ["a"], uid := 6, limit := 16, chunkSize := 8, len := 20, down := false }
+    o.2.stage = Stage.refused ∧ o.2.uploaded = 3 ∧ o.2.q = [] ∧ o.1.ents = s.ents := by decide
+
+/-- T1 tie of the save path (facts regenerated by tools/c20http from weed/server on every run): the cleanup call of
+    saveMetaData after a failed save is the ONE call `fs.filer.DeleteChunks(fileChunks)` — the chunks of this request,
+    not `entry.Chunks` (which in an append also lists the chunks of the live entry) —, the entry saved is `entry`, an
+    append merges `append(entry.Chunks, fileChunks...)`; the model's failed save emits exactly `newIds` -/
+theorem bridge_http_save :
+    SwV.Gen.C20Http.save_cleanup_arg = "fileChunks" ∧
+    SwV.Gen.C20Http.save_cleanup_calls = 1 ∧
+    SwV.Gen.C20Http.save_create_arg = "entry" ∧
+    SwV.Gen.C20Http.save_failed_cond = "dbErr != nil" ∧
+    SwV.Gen.C20Http.save_merge_old = "entry.Chunks" ∧
+    SwV.Gen.C20Http.save_merge_new = "fileChunks" ∧
+    SwV.Gen.C20Http.save_inline_refuse_cond = "len(entry.Content) > 0" ∧
+    SwV.Gen.C20Http.upload_inline_cond = "dataSize < fs.option.SaveToFilerLimit || strings.HasPrefix(r.URL.Path, filer.DirectoryEtcRoot)" ∧
+    SwV.Gen.C20Http.upload_first_piece_cond = "chunkOffset == 0 && !isAppend(r)" ∧
+    SwV.Gen.C20Http.src_saveMetaData = "6dd0252be60d4eb8" ∧
+    SwV.Gen.C20Http.src_doPutAutoChunk = "ad44a5197caf5b0e" ∧
+    SwV.Gen.C20Http.src_uploadReaderToChunks = "87817fbe1b052353" ∧
+    (∀ (s : St) (next : Nat) (r : Req), (save s next r).2.stage = .saveFailed → (save s next r).2.q = newIds next r) :=
+  ⟨rfl, rfl, rfl, rfl, rfl, rfl, rfl, rfl, rfl, rfl, rfl, rfl, fun _ _ _ h => (save_failed h).2.2.1⟩
+
+end HttpSave
 
 end SwV.Props.C20
